@@ -157,6 +157,10 @@ def doc(desc, original, s):
         if k in ("change", "change_idx"):
             return dict(score=ndiff - len(idx), breach=same, region=True)
         if k == "change_min":
+            if desc.get("minimum_percent") is not None:
+                # "at least p% of the positions changed": the smallest integer count m with 100 m >= p L (exact)
+                need = -((-desc["minimum_percent"] * len(idx)) // 100)
+                return dict(score=ndiff - need, breach=same, region=True)
             return dict(score=ndiff - desc["minimum"], breach=same, region=True)
         pct = desc.get("amount_percent")
         amount = len(idx) if pct is None else pct * len(idx) / 100.0
